@@ -265,8 +265,11 @@ func factsLife(repo string, o *out) {
 		for i, st := range list {
 			switch st := st.(type) {
 			case *ast.DeferStmt:
-				// the recover function (first statement) and `defer verifStopped(svc.conn)`
-				if _, isLit := st.Call.Fun.(*ast.FuncLit); !isLit && exprString(st.Call.Fun) != "verifStopped" {
+				// the recover function (first statement), `defer verifStopped(svc.conn)` and
+				// `defer close(svc.stopped)`: the signal that the teardown has finished, for a CONNECT
+				// that takes the connection over (MQTT-3.1.4-2) - it runs when everything else is done
+				isStopped := exprString(st.Call.Fun) == "close" && len(st.Call.Args) == 1 && exprString(st.Call.Args[0]) == "svc.stopped"
+				if _, isLit := st.Call.Fun.(*ast.FuncLit); !isLit && exprString(st.Call.Fun) != "verifStopped" && !isStopped {
 					die("stop: unexpected defer %s", exprString(st.Call.Fun))
 				}
 			case *ast.AssignStmt:
